@@ -116,10 +116,10 @@ def listStrings : List Node → List Bytes
 end
 
 mutual
-/-- a filter encoder that is the WRAPPED encoder of another filter encoder, as it behaves today: the outer
-    encoder's `logObjectMarshalerWrapper.MarshalLogObject(_)` ignores the encoder it is handed and marshals
-    the fields of an object into the outer encoder's own `wrapped` — the inner encoder's top-level copy —
-    so the inner encoder sees the fields of EVERY level with an empty key prefix -/
+/-- a filter encoder that is the WRAPPED encoder of another filter encoder, as it behaved BEFORE fix 6641767:
+    the outer encoder's `logObjectMarshalerWrapper.MarshalLogObject(_)` ignored the encoder it was handed and
+    marshalled the fields of an object into the outer encoder's own `wrapped` — the inner encoder's top-level
+    copy — so the inner encoder saw the fields of EVERY level with an empty key prefix -/
 def encNode0 (o : Oracles) (cfg : FCfg) : Node → List Node
   | .leaf k v =>
     match lookupF cfg k with
@@ -136,8 +136,13 @@ def encList0 (o : Oracles) (cfg : FCfg) : List Node → List Node
 end
 
 /-- `format filter { fields outer; wrap filter { fields inner; wrap json } }`: the outer encoder's results are
-    added to the inner encoder -/
+    added to the inner encoder, which — the outer wrapper now marshals into the encoder it is handed, i.e. the
+    inner encoder's copy that carries the key path of the object — treats them like any entry -/
 def filterEncode2 (o : Oracles) (outer inner : FCfg) (fields : List Node) : List Node :=
+  encList o inner [] (encList o outer [] fields)
+
+/-- the same BEFORE fix 6641767 -/
+def filterEncode2Old (o : Oracles) (outer inner : FCfg) (fields : List Node) : List Node :=
   encList0 o inner (encList o outer [] fields)
 
 mutual
